@@ -202,8 +202,19 @@ impl Cfg {
         })
     }
 
+    /// The same configuration, but the mode configuration is USED (and cloned) before the list methods
+    /// are applied to it: a configuration is a value, and a builder call on a configuration that has
+    /// already sanitized something must give what the same call on a fresh one gives.
+    pub fn build_after_use(&self) -> SanitizerConfig {
+        self.build_impl(true)
+    }
+
     /// The real configuration, through the public builder only.
     pub fn build(&self) -> SanitizerConfig {
+        self.build_impl(false)
+    }
+
+    fn build_impl(&self, use_first: bool) -> SanitizerConfig {
         fn lb(b: bool) -> ListBehavior {
             if b {
                 ListBehavior::Override
@@ -259,6 +270,13 @@ impl Cfg {
             ("a".into(), vec![("href".into(), vec!["javascript".into(), "https".into(), "x-fresh".into()])]),
             ("img".into(), vec![("src".into(), vec!["http".into(), "mxc".into()])]),
         ];
+        if use_first {
+            let probe = ruma_html::Html::parse(
+                "<p><code class=\"language-rust zz other\">t</code><a class=\"c\" href=\"https://x/\" title=\"t\">l</a><font color=\"#fff\">f</font><span data-mx-color=\"#000\">s</span></p>",
+            );
+            probe.sanitize_with(&c);
+            c = c.clone();
+        }
         // The builder methods are independent setters (each overwrites its own field), so the order in
         // which they are called must not matter. The order used here is a permutation derived from the
         // configuration itself (deterministic per request, different across requests), so that e.g.
